@@ -127,6 +127,24 @@ m("C15-full-delete-flag-only", FMT, "            self.set(index, H::default_leaf
 m("C15-opt-override-direct-flags", OMT, "        for &i in indices.iter().filter(|&&i| i < start || i >= end) {\n            self.delete(i)?;\n        }", "        for &i in indices.iter().filter(|&&i| i < start || i >= end) {\n            self.cached_leaves_indices[i] = 0;\n        }", "C15")
 m("C15-pm-listing-filter-ones", PMA, "            .filter(|&(_, &v)| v == 0u8)", "            .filter(|&(_, &v)| v != 1u8 && v != 2u8)", "C15-benign")
 
+# ---- C06
+m("C06-full-delete-guard-gt", FMT, "        if index < self.next_index {\n            self.set(index, H::default_leaf())?;", "        if index <= self.next_index {\n            self.set(index, H::default_leaf())?;", "C06")
+m("C06-opt-hash-couple-shortcut", OMT, "        let b = index & !1;\n        H::hash(", "        let b = index & !1;\n        if !self.nodes.contains_key(&(depth, b)) {\n            return self.cached_nodes[depth - 1];\n        }\n        H::hash(", "C06")
+m("C06-opt-set-write-before-guard", OMT, "        if index >= self.capacity() {\n            return Err(Report::msg(\"index exceeds set size\"));\n        }\n        self.nodes.insert((self.depth, index), leaf);", "        self.nodes.insert((self.depth, index), leaf);\n        if index >= self.capacity() {\n            return Err(Report::msg(\"index exceeds set size\"));\n        }", "C06")
+m("C06-opt-highwater-ignores-start", OMT, "        self.next_index = max(self.next_index, start + leaves_len);", "        self.next_index = max(self.next_index, leaves_len);", "C06")
+m("C06-full-update-nodes-child", FMT, "                self.nodes[parent] = H::hash(&[self.nodes[child], self.nodes[child + 1]]);", "                self.nodes[parent] = H::hash(&[self.nodes[child + 1], self.nodes[child]]);", "C06")
+m("C06-init-tree-reset-first", PUB, "        let mut tree = PoseidonTree::default(self.tree.depth())?;\n        tree.override_range(0, leaves.into_iter(), [].into_iter())\n            .map_err(|_| Report::msg(\"Could not set leaves\"))?;\n        self.tree = tree;", "        self.tree = PoseidonTree::default(self.tree.depth())?;\n        self.tree\n            .override_range(0, leaves.into_iter(), [].into_iter())\n            .map_err(|_| Report::msg(\"Could not set leaves\"))?;", "C06")
+m("C06-pm-set-flag-before-write", PMA, "        self.tree\n            .set(index, leaf)\n            .map_err(|e| Report::msg(e.to_string()))?;\n        self.cached_leaves_indices[index] = 1;", "        self.cached_leaves_indices[index] = 1;\n        self.tree\n            .set(index, leaf)\n            .map_err(|e| Report::msg(e.to_string()))?;", "C06")
+m("C06-opt-override-validate-after", OMT, "        if indices.iter().any(|&i| i >= self.capacity()) {\n            return Err(Report::msg(\"index to remove exceeds set size\"));\n        }\n        let end = start + leaves_vec.len();", "        let end = start + leaves_vec.len();", "C06-or-C08")
+# ---- C08
+m("C08-opt-filter-inclusive", OMT, "        for &i in indices.iter().filter(|&&i| i < start || i >= end) {", "        for &i in indices.iter().filter(|&&i| i < start || i > end) {", "C08")
+m("C08-full-write-at-min", FMT, "        self.set_range(start, leaves_vec.into_iter())\n    }\n\n    // Sets a leaf at the next available index", "        self.set_range(indices[0].min(start), leaves_vec.into_iter())\n    }\n\n    // Sets a leaf at the next available index", "C08")
+m("C08-pm-guard-removed", PMA, "        if indices.iter().any(|&i| i >= capacity) {\n            return Err(Report::msg(\"index to remove exceeds set size\"));\n        }\n", "", "C08")
+m("C08-pm-min-guard-removed", PMA, "                if indices[0] > start {\n                    return Err(Report::msg(\n                        \"removals inside or after the written range are not supported together with a write\",\n                    ));\n                }\n", "", "C08")
+m("C08-atomic-indices-masked", PUB, "        let indices: Vec<usize> = indices.iter().map(|x| *x as usize).collect();", "        let indices: Vec<usize> = indices.iter().map(|x| (*x & 0x7f) as usize).collect();", "C08")
+m("C08-set-leaves-from-zero", PUB, "            .override_range(index, leaves.into_iter(), [].into_iter())\n            .map_err(|_| Report::msg(\"Could not set leaves\"))?;\n        Ok(())", "            .override_range(index.min(1 << 19), leaves.into_iter(), [].into_iter())\n            .map_err(|_| Report::msg(\"Could not set leaves\"))?;\n        Ok(())", "C08")
+m("C08-pm-remove-span-defaults", PMA, "            if indices.contains(&i) {\n                new_leaves.push(PmTreeHasher::default_leaf());\n            } else {\n                new_leaves.push(self.tree.get(i)?);\n            }", "            new_leaves.push(PmTreeHasher::default_leaf());", "C08")
+
 
 def main():
     os.makedirs(OUT, exist_ok=True)
